@@ -107,6 +107,21 @@ PROPS["C14"] = dict(
                  "descriptor values avoid embedded double quotes and leading/trailing blanks inside quotes (no defined escaping)"],
 )
 
+PROPS["C09"] = dict(
+    engine="monitor", level="exploration", quick=2500, thorough=120000,
+    rule=("one evaluation = one seeded workload on the simulated namespace (disk open+reads of every format by handle and by path, "
+          "chains, multi-extent descriptors, the repo's real samples, all HDD._open_image candidate branches, vmtar by name and by "
+          "file object, Envelope/KeyStore, the envelope-decrypt CLI with a declared --output, HyperVFile, VMX/OVF/VBox/PVS/"
+          "DiskDescriptor text) with 0-3 error-path faults (EIO on the k-th read of a file, ENOENT/EACCES on a path, truncation, "
+          "bit flips). Oracle: empty mutation ledger (handle write/truncate, write-mode opens on SimFS and at OS level, "
+          "remove/rename/truncate/mkdir/tempfile audit events, network events) and unchanged version counters of all simulated "
+          "files. distinct = (workload kind, format/sub-kind, set of fault kinds) tuples; non-trivial = at least one fault."),
+    expected_probes=["monitor.kind_" + k for k in ("disk", "chains", "extents", "fixture", "hddpaths", "vmtar", "envelope", "cli", "hyperv", "text")],
+    assumptions=["dynamic part only: a write on a branch no workload reaches is invisible (evidence lists reached vs candidate call sites)",
+                 "the CLI's --output path is the single declared output"],
+    real=["dissect.hypervisor (all parsers + tools.envelope.main)", "dissect.util.stream", "dissect.cstruct", "defusedxml", "tarfile/gzip (stdlib)", "PyCryptodome"],
+)
+
 NOT_BUILT_REASON = "check not built yet in this session (see DESIGN.md section 11 for the build order); not claimed until its engine exists"
 
 NOT_APPLICABLE = {
@@ -121,6 +136,11 @@ _DISK_NOTE = ("trusted base: the writer stub's reading of the format, the refere
 _DISK_TECH = "deterministic simulation (stub writer peer + simulated storage + reference model oracle), seeded search, ddmin replay"
 
 MANIFEST_TEXT = {
+    "C09": dict(text="seeded deterministic simulation with error-path fault injection; seam-side mutation ledger (simulated handles and "
+                     "namespace, sys.addaudithook) as the invariant after every workload; dynamic part of the property only",
+                design_ref="DESIGN.md 4/C09", note="does not decide the 'statically, all code paths' half of the quantifier; reach is reported as "
+                "library call sites that opened files vs an AST scan of candidate sites",
+                technique="deterministic simulation + fault injection (EIO/ENOENT/EACCES/truncate/bitflip) with a mutation ledger at the storage/namespace seam and OS audit hook"),
     "C14": dict(text="seeded deterministic simulation, fault-free configuration plus writer crash states (stale secondary header): "
                      "metadata recorded by the stub writer vs attributes exposed by the reader; sampled",
                 design_ref="DESIGN.md 4/C14", note=_DISK_NOTE, technique="deterministic simulation (stub writer records stored metadata; invariant at acquisition; header-update crash states)"),
